@@ -69,6 +69,103 @@ func checkC12(ctx *Ctx, r *Report, tier string) {
 	r.floor("G5", 6)
 	r.expectControl("G3", "verifCtlToNoReturnOnError")
 	r.expectControl("G5", "verifCtlToWaitBeforeClose")
+	ruleLockReleased(ctx, r)
+}
+
+// ruleLockReleased (G6): every mutex the library takes is released on every way out of the
+// function that took it - including the early returns of error branches. A lock that survives
+// a failed save blocks every later render in the process for ever (and each of them pins its
+// sink goroutine). Decided per Lock/RLock call on the CFG: every path from the call to a return
+// or panic passes the matching Unlock/RUnlock of the same mutex (same field of the same object,
+// or same package variable), or the function defers it.
+func ruleLockReleased(ctx *Ctx, r *Report) {
+	sameMutex := func(a, b ssa.Value) bool {
+		if a == b {
+			return true
+		}
+		fa, ok1 := a.(*ssa.FieldAddr)
+		fb, ok2 := b.(*ssa.FieldAddr)
+		return ok1 && ok2 && fa.X == fb.X && fa.Field == fb.Field
+	}
+	n := 0
+	for _, fn := range ctx.srcFuncs("render", "sdf", "obj", "render/dc") {
+		if len(fn.Blocks) == 0 {
+			continue
+		}
+		ord := 0
+		allInstrs(fn, func(b *ssa.BasicBlock, ins ssa.Instruction) {
+			if _, isCall := ins.(*ssa.Call); !isCall {
+				return
+			}
+			m, ok := isMutexCall(ins, "Lock")
+			un := "Unlock"
+			if !ok {
+				m, ok = isMutexCall(ins, "RLock")
+				un = "RUnlock"
+			}
+			if !ok {
+				return
+			}
+			ord++
+			n++
+			deferred := false
+			allInstrs(fn, func(_ *ssa.BasicBlock, d ssa.Instruction) {
+				if _, isDefer := d.(*ssa.Defer); isDefer {
+					if m2, ok := isMutexCall(d, un); ok && sameMutex(m, m2) {
+						deferred = true
+					}
+				}
+			})
+			bad := ""
+			if !deferred {
+				seen := map[*ssa.BasicBlock]bool{}
+				var walk func(blk *ssa.BasicBlock, from int)
+				walk = func(blk *ssa.BasicBlock, from int) {
+					for i := from; i < len(blk.Instrs); i++ {
+						x := blk.Instrs[i]
+						if _, isCall := x.(*ssa.Call); isCall {
+							if m2, ok := isMutexCall(x, un); ok && sameMutex(m, m2) {
+								return
+							}
+						}
+						switch x.(type) {
+						case *ssa.Return, *ssa.Panic:
+							if bad == "" {
+								bad = " the exit at " + ctx.pos(lastPos(blk)) + " is reached with the mutex held;"
+							}
+							return
+						}
+					}
+					for _, su := range blk.Succs {
+						if !seen[su] {
+							seen[su] = true
+							walk(su, 0)
+						}
+					}
+				}
+				idx := 0
+				for i, x := range b.Instrs {
+					if x == ins {
+						idx = i + 1
+					}
+				}
+				walk(b, idx)
+			}
+			r.check("G6", fmt.Sprintf("%s|lock#%d-released-on-every-exit", shortFn(fn), ord), ins.Pos(), bad == "", "every path from the Lock to a return passes the matching "+un+" (or it is deferred);"+bad)
+		})
+	}
+	r.Counts["lock_sites"] = n
+	r.floor("G6", 6)
+}
+
+// lastPos: the last valid position among a block's instructions.
+func lastPos(b *ssa.BasicBlock) token.Pos {
+	for i := len(b.Instrs) - 1; i >= 0; i-- {
+		if p := b.Instrs[i].Pos(); p.IsValid() {
+			return p
+		}
+	}
+	return token.NoPos
 }
 
 // sinkCreation: a call whose (first) result is a send-only channel of slices.
